@@ -558,3 +558,4 @@ Example C11_gen_nonvacuous :
   /\ Fitting.compute_knot_vector2 Qops 2 5 4 [0; 1#8; 3#8; 1#2; 3#4; 1]%Q = GOk [0; 0; 0; 1#4; 1; 1; 1]%Q
   /\ Fit.compute_knot_vector2 Qops 2 5 4 [0; 1#8; 3#8; 1#2; 3#4; 1]%Q = [0; 0; 0; 1#4; 1; 1; 1]%Q.
 Proof. repeat split; vm_compute; reflexivity. Qed.
+
